@@ -82,7 +82,7 @@ func runScenario(r *ev.Run, be string, st *kvlab.Store, clock kvlab.Clock, o *kv
 func main() {
 	r := ev.Start("C19", "exploration")
 	r.SetRule("a scenario = one fresh lease on one real backend driven through 40 PRNG calls by 2-4 logical holders: Acquire/Renew with TTL 1s,2s,3s,1.5s or an invalid one (0, -1s, 1ns, 999ms, 999999999ns), Renew/Release with the holder's own token, a stale one, another holder's, a forged one; between calls virtual time moves by 0, 1ns, <1s, 1-4s, or exactly to expiry-1ns / expiry / expiry+1ns of the current grant. A case = one call judged by the interval oracle; distinct+non-trivial by (backend, clock, state of the lease: free / held-unexpired / held-expired / at-expiry, which token was presented, result)")
-	r.Assume("single-store histories are sequential (concurrent acquisition: C18); the ring/churn part of C19 is a separate driver using the same oracle")
+	r.Assume("single-store histories are sequential (concurrent acquisition: C18); the ring/churn part drives the same oracle through a ring of real LocalNodes (memory backend) with joins and leaves between calls, so tokens move by transfer")
 	r.Assume("not judged because the statement is silent and backends differ: a call made exactly at the expiry instant, sub-second truncation of a TTL >= 1s (the window [call+floor(ttl), return+ttl] is don't-care), Release(0) on a free lease (not generated)")
 	vc := kvlab.NewVirtualClock()
 	forceReal := os.Getenv("VERIF_C19_REAL") == "1"
@@ -149,6 +149,12 @@ func main() {
 		}(be, st)
 	}
 	realWG.Wait()
+	if clockMode["memory"] == "virtual" {
+		ringPart(r, vc)
+		clockMode["ring(memory nodes)"] = "virtual"
+	} else {
+		r.Assume("the ring/churn part needs the virtual clock in the memory backend and was skipped")
+	}
 	r.Extra("clock_per_backend", clockMode)
 	r.Count("scenarios", nScen.Load())
 	r.Count("lease_calls_judged", nCalls.Load())
